@@ -340,6 +340,39 @@ MProd(x) ==
            /\ case' = [op |-> "mprod", x |-> x, modes |-> modes, aslist |-> aslist]
            /\ res' = ValRes("tt", <<>>, D.sh, D, "must") @@ [R |-> x.R]
 
+\* ---------------------------------------------------------------------- C19
+\* copies and round trips: the expected outcome is the identity on the projected state.
+\* origin = how the harness obtains the object: "cores" (constructor from cores), "tview" (transpose of the
+\* transpose: permuted, non-contiguous core views), "slice2" (x[::2, :, ...]: strided core views), "svd"
+\* (TT-SVD of the dense array: rank list holds numpy integers; values only up to roundoff)
+Copies(op, x) ==
+    /\ op \in OPS
+    /\ \E origin \in {"cores", "tview", "slice2", "svd"} :
+        /\ (origin = "tview" => x.k = "ttm")
+        /\ (origin = "slice2" => x.k = "tt" /\ x.I[1] >= 2)
+        /\ LET X == Mk(x)  DX == Full(X)
+               e == <<[t |-> "s", lo |-> NONE, hi |-> NONE, st |-> 2]>>
+               D == IF origin = "slice2" THEN DIndex(DX, e) ELSE DX
+               N == IF x.k = "tt" THEN D.sh ELSE x.J IN
+           /\ case' = [op |-> op, x |-> x, origin |-> origin]
+           /\ res' = IF op = "numpy" THEN DenseRes(D, "must") @@ [tol |-> IF origin = "svd" THEN "roundoff" ELSE "exact"]
+                     ELSE ValRes(x.k, IF x.k = "tt" THEN <<>> ELSE x.I, N, D, "must")
+                          @@ [tol |-> IF origin = "svd" THEN "roundoff" ELSE "exact"]
+
+\* ---------------------------------------------------------------------- C20
+\* LinearLayerTT(size_in = A.J, size_out = A.I, rank = A.R): forward(x) = W x + b for x with leading batch modes
+LayerForward(A) ==
+    /\ "layer" \in OPS /\ A.k = "ttm"
+    /\ \E bsh \in BATCH :
+        LET d == Len(A.I)  W == Full(Mk(A))
+            X == DenseFill(bsh \o A.J, A.f + 1, A.cx)
+            B == DenseFill(A.I, A.f + 2, A.cx)
+            Y == DMatDense(W, d, X)
+            nb == Len(bsh)
+            out == DenseOf(Y.sh, LAMBDA ix : GAdd(At(Y, ix), At(B, SubSeq(ix, nb + 1, nb + d)))) IN
+        /\ case' = [op |-> "layer", x |-> A, bsh |-> bsh]
+        /\ res' = DenseRes(out, "must")
+
 AlgNext(x) ==
     \/ \E op \in {"add", "sub", "mul"} : BinTT(op, x) \/ BinMM(op, x)
     \/ \E op \in {"add_rev", "sub_rev", "mul_rev"} : BinTTRev(op, x)
@@ -354,6 +387,8 @@ AlgNext(x) ==
     \/ Dot(x) \/ DotAxes(x) \/ Bilinear(x)
     \/ IndexT(x) \/ IndexM(x) \/ ApplyMask(x)
     \/ Cat(x) \/ Cat3(x) \/ PadT(x) \/ PadM(x) \/ MProd(x)
+    \/ \E op \in {"save_load", "clone_c", "detach", "to_dtype", "cpu", "numpy"} : Copies(op, x)
+    \/ LayerForward(x)
 
 Next == Fresh /\ AlgNext(case.x)
 
